@@ -4,4 +4,4 @@ import os
 _spec = importlib.util.spec_from_file_location("_multi", os.path.join(os.path.dirname(__file__), "_multi.py"))
 _m = importlib.util.module_from_spec(_spec)
 _spec.loader.exec_module(_m)
-pre_build, pre_checks = _m.hooks("_opsgen", "_reprgen", "_algogen")
+pre_build, pre_checks = _m.hooks("_algogen")
